@@ -2027,6 +2027,9 @@ class CanMatrix(object):
         """
 
         for test in self.frames:
+            if not test.arbitration_id.extended:
+                # 11-bit frames have no PGN
+                continue
             if test.arbitration_id.pgn == canmatrix.ArbitrationId.from_pgn(pgn).pgn:
                 # canmatrix.ArbitrationId.from_pgn(pgn).pgn instead
                 # of just pgn is needed to do the pf >= 240 check
